@@ -10,7 +10,8 @@ import NriModel.Lemmas.StubSession
 namespace Nri.StubSession
 
 /-- reachable by any history (including `stall`; excluded cases contain it) -/
-def Reach0 (s : State) : Prop := ∃ h : List Event, run fixed init h = some s
+def Reach0 (s : State) : Prop :=
+  ∃ (src : ConnSrc) (h : List Event), run fixed (initWith src) h = some s
 
 theorem run_snoc (v : Variant) (e : Event) :
     ∀ (l : List Event) (a b : State), run v a l = some b → run v a (l ++ [e]) = step? v b e := by
@@ -26,11 +27,11 @@ theorem run_snoc (v : Variant) (e : Event) :
 
 theorem Reach0.step {s s' : State} {e : Event} (h : Reach0 s) (hs : step? fixed s e = some s') :
     Reach0 s' := by
-  obtain ⟨hist, hr⟩ := h
-  exact ⟨hist ++ [e], by rw [run_snoc fixed e hist init s hr]; exact hs⟩
+  obtain ⟨src, hist, hr⟩ := h
+  exact ⟨src, hist ++ [e], by rw [run_snoc fixed e hist (initWith src) s hr]; exact hs⟩
 
 theorem Reach.reach0 {s : State} (h : Reach s) : Reach0 s := by
-  obtain ⟨hist, _, hr⟩ := h; exact ⟨hist, hr⟩
+  obtain ⟨src, hist, _, hr⟩ := h; exact ⟨src, hist, hr⟩
 
 /-- an observation inside C16's domain -/
 def OpObs.inDomain : OpObs → Bool
@@ -53,51 +54,85 @@ theorem loseConn_reach {s : State} (conn : Nat) (h : Reach s) : Reach (loseConn 
     · exact h
   · exact h
 
+/-- Label faithfulness: an observed `Start` is only ever explained by a `start` step carrying
+    exactly the observed runtime behaviour and the observed result, from a state in which the
+    model predicts the observed dial / session number / connection number. -/
+theorem applyObs_start {o : Script} {r : StartRes} {d : Bool} {sid conn : Nat} {s s' : State}
+    (hm : s' ∈ applyObs (.start o r d sid conn) s) :
+    step? fixed s (.start o r) = some s' ∧ wouldDial s = d ∧
+    (if s'.cur = s.cur + 1 then s'.cur else 0) = sid ∧
+    (if s'.dials = s.dials + 1 then s'.dials else 0) = conn := by
+  simp only [applyObs] at hm
+  split at hm
+  · simp at hm
+  · rename_i s1 hs1
+    by_cases hc : (wouldDial s = d ∧ (if s1.cur = s.cur + 1 then s1.cur else 0) = sid ∧
+        (if s1.dials = s.dials + 1 then s1.dials else 0) = conn)
+    · have : s' = s1 := by simpa [hc] using hm
+      subst this
+      exact ⟨hs1, hc.1, hc.2.1, hc.2.2⟩
+    · simp [hc] at hm
+
+/-- … and likewise for every other kind of observation; an `impossible` observation (a
+    blocked Stop or Wait, an error of unknown kind) is explained by nothing. -/
+theorem applyObs_faithful {p : OpObs} {s s' : State} (hm : s' ∈ applyObs p s) :
+    match p with
+    | .start o r _ _ _ => step? fixed s (.start o r) = some s'
+    | .stop => step? fixed s .stop = some s'
+    | .wait b => step? fixed s (.wait b) = some s'
+    | .lose conn => s' = loseConn conn s
+    | .nop => s' = s
+    | .request ok => step? fixed s (.dispatch ok) = some s'
+    | .impossible => False := by
+  cases p with
+  | start o r d sid conn => exact (applyObs_start hm).1
+  | stop => simpa [applyObs] using hm
+  | wait b => simpa [applyObs] using hm
+  | lose conn => simpa [applyObs] using hm
+  | nop => simpa [applyObs] using hm
+  | request ok => simpa [applyObs] using hm
+  | impossible => simp [applyObs] at hm
+
+theorem applyObs_impossible (s : State) : applyObs .impossible s = [] := rfl
+
 theorem applyObs_reach0 {p : OpObs} {s s' : State} (h : Reach0 s) (hm : s' ∈ applyObs p s) :
     Reach0 s' := by
+  have hf := applyObs_faithful hm
   cases p with
-  | start o r d sid conn =>
-    simp only [applyObs] at hm
-    split at hm
-    · simp at hm
-    · rename_i s1 hs1
-      have hs' : s' = s1 := by
-        by_cases hc : ((!s.started && s.conn.isNone) = d ∧
-            (if s1.cur = s.cur + 1 then s1.cur else 0) = sid ∧
-            (if s1.dials = s.dials + 1 then s1.dials else 0) = conn)
-        · simpa [hc] using hm
-        · simp [hc] at hm
-      subst hs'; exact h.step hs1
-  | stop => simp only [applyObs, Option.mem_toList] at hm; exact h.step hm
-  | wait b => simp only [applyObs, Option.mem_toList] at hm; exact h.step hm
-  | lose conn => simp only [applyObs, List.mem_singleton] at hm; subst hm; exact loseConn_reach0 conn h
-  | nop => simp only [applyObs, List.mem_singleton] at hm; subst hm; exact h
-  | request ok => simp only [applyObs, Option.mem_toList] at hm; exact h.step hm
-  | impossible => simp [applyObs] at hm
+  | start o r d sid conn => exact h.step hf
+  | stop => exact h.step hf
+  | wait b => exact h.step hf
+  | lose conn => simp only at hf; subst hf; exact loseConn_reach0 conn h
+  | nop => simp only at hf; subst hf; exact h
+  | request ok => exact h.step hf
+  | impossible => exact hf.elim
 
 theorem applyObs_reach {p : OpObs} {s s' : State} (hd : p.inDomain = true) (h : Reach s)
     (hm : s' ∈ applyObs p s) : Reach s' := by
+  have hf := applyObs_faithful hm
   cases p with
   | start o r d sid conn =>
     have ho : inDomain (.start o r) = true := by
       cases o <;> simp [OpObs.inDomain] at hd <;> rfl
-    simp only [applyObs] at hm
-    split at hm
-    · simp at hm
-    · rename_i s1 hs1
-      have hs' : s' = s1 := by
-        by_cases hc : ((!s.started && s.conn.isNone) = d ∧
-            (if s1.cur = s.cur + 1 then s1.cur else 0) = sid ∧
-            (if s1.dials = s.dials + 1 then s1.dials else 0) = conn)
-        · simpa [hc] using hm
-        · simp [hc] at hm
-      subst hs'; exact h.step ho hs1
-  | stop => simp only [applyObs, Option.mem_toList] at hm; exact h.step (by rfl) hm
-  | wait b => simp only [applyObs, Option.mem_toList] at hm; exact h.step (by rfl) hm
-  | lose conn => simp only [applyObs, List.mem_singleton] at hm; subst hm; exact loseConn_reach conn h
-  | nop => simp only [applyObs, List.mem_singleton] at hm; subst hm; exact h
-  | request ok => simp only [applyObs, Option.mem_toList] at hm; exact h.step (by rfl) hm
-  | impossible => simp [applyObs] at hm
+    exact h.step ho hf
+  | stop => exact h.step (by rfl) hf
+  | wait b => exact h.step (by rfl) hf
+  | lose conn => simp only at hf; subst hf; exact loseConn_reach conn h
+  | nop => simp only at hf; subst hf; exact h
+  | request ok => exact h.step (by rfl) hf
+  | impossible => exact hf.elim
+
+/-- a late return of a blocked `Wait` is explained only by a `waitRet` step of a session that
+    some `Wait` of this configuration is blocked on -/
+theorem releaseAny_faithful {s s' : State} (hm : s' ∈ releaseAny s) :
+    ∃ sid, sid ∈ s.waiting ∧ step? fixed s (.waitRet sid) = some s' := by
+  simp only [releaseAny, List.mem_filterMap] at hm
+  obtain ⟨sid, h1, h2⟩ := hm
+  exact ⟨sid, by simpa using h1, h2⟩
+
+theorem releaseAny_reach {s s' : State} (h : Reach s) (hm : s' ∈ releaseAny s) : Reach s' := by
+  obtain ⟨sid, _, hs⟩ := releaseAny_faithful hm
+  exact h.step (by rfl) hs
 
 theorem mem_dedup {l : List Cfg} {c : Cfg} (h : c ∈ dedup l) : c ∈ l := by
   unfold dedup at h
@@ -142,6 +177,29 @@ theorem silent_sound {P : State → Prop} {p : Option OpObs}
         obtain ⟨s', hs', rfl⟩ := h2
         exact hobs pd _ _ rfl hc hs'
 
+/-- A silent move is either the delivery of one pending close notification (the pending
+    operation stays pending) or the pending operation taking effect — once: only from a
+    configuration in which it had not, into one in which it has. -/
+theorem silent_faithful {p : Option OpObs} {c c' : Cfg} (hm : c' ∈ silent p c) :
+    (∃ sid, sid ∈ c.s.inflight ∧ step? fixed c.s (.closeNotify sid) = some c'.s ∧
+        c'.applied = c.applied) ∨
+    (∃ pd, p = some pd ∧ c.applied = false ∧ c'.applied = true ∧ c'.s ∈ applyObs pd c.s) := by
+  simp only [silent, List.mem_append, List.mem_filterMap] at hm
+  rcases hm with ⟨sid, h1, h2⟩ | h2
+  · simp only [Option.map_eq_some_iff] at h2
+    obtain ⟨s', hs', rfl⟩ := h2
+    exact Or.inl ⟨sid, h1, hs', rfl⟩
+  · cases p with
+    | none => simp at h2
+    | some pd =>
+      simp only at h2
+      split at h2
+      · simp at h2
+      · rename_i hna
+        simp only [List.mem_map] at h2
+        obtain ⟨s', hs', rfl⟩ := h2
+        exact Or.inr ⟨pd, rfl, by simpa using hna, rfl, hs'⟩
+
 theorem closure_sound {P : State → Prop} {p : Option OpObs}
     (hstep : ∀ s s' e, P s → (∃ sid, e = .closeNotify sid) → step? fixed s e = some s' → P s')
     (hobs : ∀ pd s s', p = some pd → P s → s' ∈ applyObs pd s → P s') :
@@ -175,6 +233,6 @@ theorem closure_reach (p : Option OpObs) (hp : ∀ pd, p = some pd → pd.inDoma
     (fun _ _ e hs ⟨sid, hsid⟩ he => hs.step (by subst hsid; rfl) he)
     (fun pd _ _ hpd hs hm => applyObs_reach (hp pd hpd) hs hm) fuel cs h
 
-theorem init_reach : Reach init := ⟨[], by simp, rfl⟩
+theorem init_reach (src : ConnSrc) : Reach (initWith src) := ⟨src, [], by simp, rfl⟩
 
 end Nri.StubSession
